@@ -106,7 +106,7 @@ func runC04(c *Ctx) {
 					}
 					reach := reachableFrom(t)
 					for _, in := range instrsWhere(dl, isReturn) {
-						if (in.Block() == t || reach[in.Block()]) && errIdx >= 0 && isNilConst(in.(*ssa.Return).Results[errIdx]) {
+						if (in.Block() == t || reach[in.Block()]) && errIdx >= 0 && isNilConst(unspill(in.(*ssa.Return), errIdx)) {
 							early = c.pos(nearestPos(b.Instrs[len(b.Instrs)-1])) + " -> return at " + c.pos(nearestPos(in))
 						}
 					}
@@ -201,7 +201,7 @@ func runC04(c *Ctx) {
 	} else {
 		ok := false
 		for _, in := range instrsWhere(less, isReturn) {
-			if bo, isB := in.(*ssa.Return).Results[0].(*ssa.BinOp); isB {
+			if bo, isB := unspill(in.(*ssa.Return), 0).(*ssa.BinOp); isB {
 				xi, xok := hostLenIndex(bo.X)
 				yi, yok := hostLenIndex(bo.Y)
 				if xok && yok && len(less.Params) == 3 {
@@ -234,7 +234,7 @@ func runC04(c *Ctx) {
 					for _, r2 := range refs(bo) {
 						if ifi, ok := r2.(*ssa.If); ok {
 							for _, in := range ifi.Block().Succs[0].Instrs {
-								if ret, ok := in.(*ssa.Return); ok && len(ret.Results) == 1 && sameThroughSpill(ret.Results[0], match[0].Instr.(ssa.Value)) {
+								if ret, ok := in.(*ssa.Return); ok && len(ret.Results) == 1 && sameThroughSpill(unspill(ret, 0), match[0].Instr.(ssa.Value)) {
 									okFirst = true
 								}
 							}
@@ -729,7 +729,7 @@ func c04Precedence(c *Ctx, fn *ssa.Function) {
 	// default last: every return of defaultVirtualHostIndex comes after the wildcard lookups
 	defOK, nDef := true, 0
 	for _, in := range instrsWhere(fn, isReturn) {
-		if _, f, _, ok := loadedField(in.(*ssa.Return).Results[0]); ok && f == "defaultVirtualHostIndex" {
+		if _, f, _, ok := loadedField(unspill(in.(*ssa.Return), 0)); ok && f == "defaultVirtualHostIndex" {
 			nDef++
 			// reachable only after level 4 was consulted or skipped because no wildcard table exists:
 			// the return must not be able to precede the level-4 lookup and must not sit inside the wildcard region
@@ -805,7 +805,7 @@ func c04Precedence(c *Ctx, fn *ssa.Function) {
 							if ifi, ok := r.(*ssa.If); ok {
 								for _, x := range ifi.Block().Succs[0].Instrs {
 									if ret, ok := x.(*ssa.Return); ok {
-										if _, f3, _, ok := loadedField(ret.Results[0]); ok && f3 == "index" {
+										if _, f3, _, ok := loadedField(unspill(ret, 0)); ok && f3 == "index" {
 											okRet = true
 										}
 									}
